@@ -426,7 +426,8 @@ impl UserRx {
             flushed_packets += 1;
         }
 
-        if flushed_bytes > 0 {
+        // An EOF is a packet of zero bytes: the reader waits for it too.
+        if flushed_packets > 0 {
             let waker = self.shared.locked.lock().reader_waker.take();
             if let Some(w) = waker {
                 w.wake();
